@@ -1315,10 +1315,13 @@ impl World {
             }
         }
         let size = data.len();
+        let rfirst = data.first().copied().unwrap_or(0);
+        let rver: i64 = if data.len() >= 5 && rfirst & 0x80 != 0 { u32::from_be_bytes([data[1], data[2], data[3], data[4]]) as i64 } else { -1 };
         let (id, fate) = self.send_dgram(n, t.destination, data, t.ecn, &pkts);
         let tnow = self.now_us;
         self.trace.push(json!({
             "ev":"Resp","t":tnow,"n":n,"dst":addr_id(t.destination),"size":size,"why":why,
+            "first":rfirst,"ver":rver,
             "incite":incite,"incite_id":incite_id,"id":id,"fate":fate_str(&fate),
             "pkts":pkts.iter().map(pkt_json).collect::<Vec<_>>(),
         }));
@@ -1392,10 +1395,27 @@ impl World {
             };
             cid.iter().map(|x| format!("{:02x}", x)).collect()
         };
+        // connection ID lengths of a long header, when both IDs are there in full
+        let lens: Value = {
+            let b = &d.data;
+            if b.len() > 5 && b[0] & 0x80 != 0 {
+                let dl = b[5] as usize;
+                if b.len() > 6 + dl {
+                    let sl = b[6 + dl] as usize;
+                    if b.len() >= 7 + dl + sl { json!([dl, sl]) } else { Value::Null }
+                } else {
+                    Value::Null
+                }
+            } else {
+                Value::Null
+            }
+        };
         let base = json!({"ev":"Rx","t":tnow,"n":n,"id":d.id,"orig":d.orig,"suid":d.from_uid,"rdcid":rdcid,
             "long":d.data.first().is_some_and(|b| b & 0x80 != 0),"damaged":d.damage.is_some(),"src":addr_id(d.src),
             "ver":if d.data.len() >= 5 { u32::from_be_bytes([d.data[1], d.data[2], d.data[3], d.data[4]]) as i64 } else { -1 },
             "size":size,"cls":d.cls,"first":d.data.first().copied().unwrap_or(0),"pk":pk,
+            "cidl":self.nodes[n].cid_len,
+            "lens":lens,
             "ecnm":match d.ecn { None => "none", Some(EcnCodepoint::Ect0) => "ect0", Some(EcnCodepoint::Ect1) => "ect1", Some(EcnCodepoint::Ce) => "ce" },
             "exact":d.exact,"ipk":ipk,
             "otypes":d.pkts.iter().map(|p| match p.ty { PType::Retry => "R", PType::VersionNeg => "V", _ => "P" }).collect::<String>()});
